@@ -109,3 +109,20 @@ Proof.
   exact (sync_np_agree_neg_cfg (p_types p') (p_funs p') (teq_rt (p_types p')) (teq_rt_laws _) (proj1 Hst) HFa HFn HFw
            (init_config p') pick1 f1 t1 HJ Hnf Hr).
 Qed.
+
+(* ------------------------------------------------------------------ what is NOT proved *)
+(* The statement for all contraction-free programs (forwards of either polarity, drop): kept as a
+   Definition.  Proved above: the instance for negfwd_prog_b (both directions).  Missing for positive
+   forwards: when `Control f t` absorbs a positive forward f, the polarized run keeps f as the process
+   that re-sends t's message (on_message, FFwd case), so after the hand-over the two runs differ in the
+   identifier of a blocked sender (f there, t here) and in the closed flag of a dead channel; the
+   simulation relation must be equality up to that renaming, and NPFlush.flush_step must be transported
+   along it.  Missing for drop: the polarized modes reclaim the dropped subtree (droppable forwards,
+   GC requests), the non-polarized mode leaves it blocked; the relation must ignore that garbage. *)
+Require Grits.proofs.DeterminismNPCfree.
+Definition np_polarized_agree_cfree_statement : Prop :=
+  forall txt p p' pick1 f1 t1,
+  parse_string txt = POk p -> typecheck p = Accept p' -> in_fragment p' -> Grits.proofs.DeterminismNPCfree.cfree_src_b p = true ->
+  exec_run f1 pick1 NP (p_types p') (p_funs p') (init_config p') = RQuiescent t1 ->
+  exists n, forall pick2 f2, (n < f2)%nat ->
+    exists t2, exec_run f2 pick2 Sync (p_types p') (p_funs p') (init_config p') = RQuiescent t2 /\ labels t2 ≡ₚ labels t1.
